@@ -60,6 +60,7 @@ func (propC09) Gen(r *Rng, idx int, tier string) *Scenario {
 	if hr.Chance(1, 6) {
 		sc.Decl.UnknownHandler = "drop"
 	}
+	sc.Decl.Reenter = hr.Chance(1, 4)
 	sc.Decl.CompHandler = hr.Chance(1, 2)
 	sc.World = WorldSpec{Cols: 80, Now: 1700000000, Env: map[string]BStr{}}
 	p := sc.C09
